@@ -294,7 +294,10 @@ class GCACGMMTrainer:
             weight = np.sum(
                 masked_affiliation, axis=weight_constant_axis, keepdims=True
             )
-            weight /= np.sum(weight, axis=-2, keepdims=True)
+            weight /= np.maximum(
+                np.sum(weight, axis=-2, keepdims=True),
+                np.finfo(weight.dtype).tiny,
+            )
             weight = np.squeeze(weight, axis=weight_constant_axis)
 
         embedding_ = np.reshape(embedding, (1, F * T, E))
